@@ -124,10 +124,10 @@ def step (line : String) : String :=
       let dicts ← many (many (do
         let n ← next
         let kind ← next
-        let u ← ufun
         match kind with
-        | "raw" => pure (n, DEntry.raw u)
-        | "wrapped" => pure (n, DEntry.wrapped u)
+        | "raw" => do pure (n, DEntry.raw (← ufun))
+        | "wrapped" => do pure (n, DEntry.wrapped (← ufun))
+        | "tensor" => do pure (n, DEntry.tensor (← table))
         | t => throw s!"entry:{t}"))
       let ops ← many opS
       let res := runS (WorldS.init dicts) ops
